@@ -236,7 +236,7 @@ func ApplyGnmi(s DevState, dels []Path, upds []*Leaf) {
 }
 
 var xmlCombos = []struct {
-	Name                 string
+	Name             string
 	NS, OpNS, Remove bool
 }{
 	{"ns0-op0-del", false, false, false}, {"ns0-op0-rem", false, false, true},
